@@ -168,6 +168,12 @@ func CompareEval(d *Driver, src string, o RunOpts) EvalCmp {
 			c.Skipped = "real-timeout"
 			return c
 		}
+		if m.Yields < o.MaxYield {
+			// the model ran out of its auxiliary fuel (rendering, comparing or copying a value of
+			// millions of elements) before the yield budget: a limit of the model, not a behaviour
+			c.Skipped = "model-fuel"
+			return c
+		}
 	}
 	c.RClass, c.RTrace, c.RGlobals = res.Class, RealTrace(res), globals
 	c.MClass, c.MTrace, c.MGlobals = normClass(m.Class), m.Trace, m.Globals
